@@ -158,29 +158,34 @@ func ruleFitComparators(c *Ctx) {
 			}
 		}
 		cur := ords
-		got, okE := ordEval(cmp, nil, ordAssume{cmp: func(x, y ssa.Value) (int, bool) {
-			kx, ky := keyOf(x), keyOf(y)
-			if kx == "" || kx != ky {
-				return 0, false
+		for _, sameObj := range []bool{false, true} {
+			if sameObj && cur != [3]int{} {
+				continue
 			}
-			sx, sy := sideOf(x), sideOf(y)
-			for k, name := range keys {
-				if name == kx {
-					if sx == 0 && sy == 1 {
-						return cur[k], true
-					}
-					if sx == 1 && sy == 0 {
-						return -cur[k], true
+			got, okE := ordEval(cmp, nil, ordAssume{val: identityOfParams(cmp, sameObj), cmp: func(x, y ssa.Value) (int, bool) {
+				kx, ky := keyOf(x), keyOf(y)
+				if kx == "" || kx != ky {
+					return 0, false
+				}
+				sx, sy := sideOf(x), sideOf(y)
+				for k, name := range keys {
+					if name == kx {
+						if sx == 0 && sy == 1 {
+							return cur[k], true
+						}
+						if sx == 1 && sy == 0 {
+							return -cur[k], true
+						}
 					}
 				}
+				return 0, false
+			}}, 3)
+			if !okE || got.kind != 'i' || int(got.i) != want {
+				if tableOK {
+					tableDetail = fmt.Sprintf("with (peers, mismatches, isolation) of a vs b ordered %v the result is %v (evaluated: %v), want %d", cur, got.i, okE, want)
+				}
+				tableOK = false
 			}
-			return 0, false
-		}}, 3)
-		if !okE || got.kind != 'i' || int(got.i) != want {
-			if tableOK {
-				tableDetail = fmt.Sprintf("with (peers, mismatches, isolation) of a vs b ordered %v the result is %v (evaluated: %v), want %d", cur, got.i, okE, want)
-			}
-			tableOK = false
 		}
 	}
 	rec(0)
@@ -215,29 +220,35 @@ func ruleFitComparators(c *Ctx) {
 	okTail, tailDetail := true, ""
 	for _, o := range []int{-1, 0, 1} {
 		ord := o
-		got, okE := ordEval(crf, nil, ordAssume{
-			cmp: func(x, y ssa.Value) (int, bool) {
-				isOrph := func(v ssa.Value) bool { return lenOf(loadOfField(fOrph))(v) }
-				if !isOrph(x) || !isOrph(y) || len(crf.Params) != 2 {
+		for _, sameObj := range []bool{false, true} {
+			if sameObj && ord != 0 {
+				continue
+			}
+			got, okE := ordEval(crf, nil, ordAssume{
+				val: identityOfParams(crf, sameObj),
+				cmp: func(x, y ssa.Value) (int, bool) {
+					isOrph := func(v ssa.Value) bool { return lenOf(loadOfField(fOrph))(v) }
+					if !isOrph(x) || !isOrph(y) || len(crf.Params) != 2 {
+						return 0, false
+					}
+					if derivesFrom(x, same(crf.Params[0]), 5) && derivesFrom(y, same(crf.Params[1]), 5) {
+						return ord, true
+					}
+					if derivesFrom(x, same(crf.Params[1]), 5) && derivesFrom(y, same(crf.Params[0]), 5) {
+						return -ord, true
+					}
 					return 0, false
-				}
-				if derivesFrom(x, same(crf.Params[0]), 5) && derivesFrom(y, same(crf.Params[1]), 5) {
-					return ord, true
-				}
-				if derivesFrom(x, same(crf.Params[1]), 5) && derivesFrom(y, same(crf.Params[0]), 5) {
-					return -ord, true
-				}
-				return 0, false
-			},
-			known: func(v ssa.Value) (int64, bool) {
-				if lenOf(loadOfField(fFits))(v) {
-					return 0, true
-				}
-				return 0, false
-			}}, 3)
-		if !okE || got.kind != 'i' || int(got.i) != -ord {
-			okTail = false
-			tailDetail = fmt.Sprintf("with a's orphans vs b's ordered %d the result is %d (evaluated: %v), want %d", ord, got.i, okE, -ord)
+				},
+				known: func(v ssa.Value) (int64, bool) {
+					if lenOf(loadOfField(fFits))(v) {
+						return 0, true
+					}
+					return 0, false
+				}}, 3)
+			if !okE || got.kind != 'i' || int(got.i) != -ord {
+				okTail = false
+				tailDetail = fmt.Sprintf("with a's orphans vs b's ordered %d the result is %d (evaluated: %v), want %d", ord, got.i, okE, -ord)
+			}
 		}
 	}
 	c.Check(okTail, rule, "CompareRegionFit orphans", "finally fewer orphans is better (< → 1, > → −1, = → 0)", P.pos(crf.Pos()), tailDetail)
@@ -523,6 +534,80 @@ func ruleClosedEnums(c *Ctx) {
 	loose := P.Method(plc, "fitPeer", "matchRoleLoose")
 	isLearner := F(P.Func("server/core", "IsLearner"))
 	c.Check(constsComparedIn(loose)[roles["Learner"]] && len(callsIn(loose, false, isLearner)) > 0, rule, fnName(loose), "a non-learner can never fill a learner rule; everything else is convertible", P.pos(loose.Pos()), "")
+	// … decided as truth tables: both role predicates are evaluated for every role × (peer is a learner) ×
+	// (peer is the leader); the loose match refuses exactly "learner rule, non-learner peer", the strict one
+	// follows the documented role table
+	isLeaderF := P.Field(plc, "fitPeer", "isLeader")
+	roleTable := func(fn *ssa.Function, want func(role string, learner, leader bool) bool, what string) {
+		okT, detail := true, ""
+		var roleParam ssa.Value
+		if len(fn.Params) == 2 {
+			roleParam = fn.Params[1]
+		}
+		for name, rv := range roles {
+			for _, learner := range []bool{false, true} {
+				for _, leader := range []bool{false, true} {
+					if learner && leader {
+						continue // a learner is never the leader
+					}
+					rv, learner, leader := rv, learner, leader
+					got, okE := ordEval(fn, nil, ordAssume{
+						cmp: func(x, y ssa.Value) (int, bool) {
+							var cst string
+							var isC bool
+							switch {
+							case x == roleParam:
+								cst, isC = constString(y)
+							case y == roleParam:
+								cst, isC = constString(x)
+							}
+							if !isC {
+								return 0, false
+							}
+							if cst == rv {
+								return 0, true
+							}
+							return 1, true
+						},
+						call: func(cl *ssa.Call) (ordVal, bool) {
+							if isLearner.Match(cl.Common()) {
+								return ordVal{b: learner, kind: 'b'}, true
+							}
+							return ordVal{}, false
+						},
+						val: func(v ssa.Value) (ordVal, bool) {
+							if isLoadOf(v, isLeaderF) {
+								return ordVal{b: leader, kind: 'b'}, true
+							}
+							return ordVal{}, false
+						}}, 2)
+					w := want(name, learner, leader)
+					if !okE || got.kind != 'b' || got.b != w {
+						if okT {
+							detail = fmt.Sprintf("role %s, learner=%v, leader=%v: got %v (evaluated: %v), want %v", name, learner, leader, got.b, okE, w)
+						}
+						okT = false
+					}
+				}
+			}
+		}
+		c.Check(okT, rule, "truth table of "+fnName(fn), what, P.pos(fn.Pos()), detail)
+	}
+	roleTable(loose, func(role string, learner, leader bool) bool { return role != "Learner" || learner },
+		"refuses exactly a non-learner for a learner rule — a learner may fill a leader, voter or follower rule (it is listed as a role mismatch and promoted)")
+	roleTable(P.Method(plc, "fitPeer", "matchRoleStrict"), func(role string, learner, leader bool) bool {
+		switch role {
+		case "Voter":
+			return !learner
+		case "Leader":
+			return leader
+		case "Follower":
+			return !learner && !leader
+		case "Learner":
+			return learner
+		}
+		return false
+	}, "voter: not a learner; leader: the leader; follower: neither learner nor leader; learner: a learner")
 	// MatchLabelConstraints: nil store, exclusive labels, every constraint
 	mlc := P.Func(plc, "MatchLabelConstraints")
 	excl := F(P.Func(plc, "isExclusiveLabel"))
@@ -713,4 +798,23 @@ func init() {
 		c.Group("C12/satisfied", "satisfied ⇔ count filled with matching roles for every rule and no orphan", func() { ruleSatisfiedAtoms(c) })
 		c.Group("C12/closed-enums", "role and operator switches handle every constant; label matching handles nil stores, exclusive labels and every constraint", func() { ruleClosedEnums(c); ruleLabelMatchAtoms(c) })
 	})
+}
+
+// identityOfParams: the assumed value of a pointer comparison a == b / a != b
+// between the two inputs of a comparator (an "is it the same object" fast
+// path). Objects that differ in a key are not the same object; objects equal in
+// every key may or may not be, so those rows are evaluated both ways.
+func identityOfParams(fn *ssa.Function, sameObj bool) func(v ssa.Value) (ordVal, bool) {
+	return func(v ssa.Value) (ordVal, bool) {
+		bo, ok := v.(*ssa.BinOp)
+		if !ok || (bo.Op != token.EQL && bo.Op != token.NEQ) || len(fn.Params) != 2 {
+			return ordVal{}, false
+		}
+		x, y := strip(bo.X), strip(bo.Y)
+		a, b := ssa.Value(fn.Params[0]), ssa.Value(fn.Params[1])
+		if !(x == a && y == b) && !(x == b && y == a) {
+			return ordVal{}, false
+		}
+		return ordVal{b: sameObj == (bo.Op == token.EQL), kind: 'b'}, true
+	}
 }
